@@ -186,26 +186,65 @@ def rule_operators(facts, rep):
             ok = hir.is_call(r, E + target) and hir.is_local(r["args"][0], "self") and hir.is_local(r["args"][1], b["params"][1]["name"])
         rep.check(ok, "operators", b["path"], f"is-{target}", f"`{meth}` on Effects is *self = self.{target}(other)", loc(b))
     STY = "anstyle::style::Style"
+    # Style (op) Effects: decided by abstract evaluation on a record value — the result differs from `self` in `effects` only,
+    # and there it is insert / remove of the operand (`|=`, `.insert()`, the `effects()` setter are all accepted spellings)
+    import abseval
     for tr, meth, op in ((f"core::ops::bit::BitOr<{EFFT}>", "bitor", "BitOrAssign"), (f"core::ops::arith::Sub<{EFFT}>", "sub", "SubAssign"),
                          (f"core::ops::bit::BitOrAssign<{EFFT}>", "bitor_assign", "BitOrAssign"), (f"core::ops::arith::SubAssign<{EFFT}>", "sub_assign", "SubAssign")):
         b = body(f"<{STY} as {tr}>::{meth}")
-        st = [hir.simp(x) for x in hir.stmts_of(b["hir"])]
-        asg = [x for x in st if x.get("k") == "assignop"]
-        want_callee = {"BitOrAssign": f"<{EFFT} as core::ops::bit::BitOrAssign>::bitor_assign", "SubAssign": f"<{EFFT} as core::ops::arith::SubAssign>::sub_assign"}[op]
-        ok = (len(asg) == 1 and asg[0]["op"] == op and hir.place_str(asg[0]["l"]) == "self.effects" and hir.is_local(asg[0]["r"], b["params"][1]["name"])
-              and (asg[0].get("resolved") or asg[0].get("callee")) == want_callee
-              and len(st) == (2 if meth in ("bitor", "sub") else 1) and (meth not in ("bitor", "sub") or hir.is_local(st[-1], "self")))
-        rep.check(ok, "operators", b["path"], f"effects-{op}-only", f"Style {meth} touches `effects` only, through Effects' {op}", loc(b))
+        tag = "ins" if op == "BitOrAssign" else "rem"
+        atoms = {E + "insert": lambda a: ("ins", a[0], a[1]), E + "remove": lambda a: ("rem", a[0], a[1]),
+                 f"<{EFFT} as core::ops::bit::BitOrAssign>::bitor_assign": lambda a: ("ins", a[0], a[1]),
+                 f"<{EFFT} as core::ops::arith::SubAssign>::sub_assign": lambda a: ("rem", a[0], a[1]),
+                 f"<{EFFT} as core::ops::bit::BitOr>::bitor": lambda a: ("ins", a[0], a[1]),
+                 f"<{EFFT} as core::ops::arith::Sub>::sub": lambda a: ("rem", a[0], a[1])}
+        ev = abseval.Evaluator(facts, "anstyle", atoms)
+        env = abseval.Env()
+        start = {"fg": ("sym", "fg"), "bg": ("sym", "bg"), "underline": ("sym", "ul"), "effects": ("sym", "E")}
+        env[b["params"][0]["name"]] = ("rec", dict(start))
+        env[b["params"][1]["name"]] = ("sym", "rhs")
+        ok, why = False, ""
+        try:
+            try:
+                r = ev.ev(b["hir"], env)
+            except abseval.Return as rt:
+                r = rt.v
+            res = r if meth in ("bitor", "sub") else env[b["params"][0]["name"]]
+            want = dict(start, effects=(tag, ("sym", "E"), ("sym", "rhs")))
+            ok = res == ("rec", want)
+            why = f"result {res}"
+        except Unrecognised as ex:
+            why = str(ex)
+        rep.check(ok, "operators", b["path"], f"effects-{op}-only", f"Style {meth} touches `effects` only, through Effects' {'insert' if tag == 'ins' else 'remove'}: {why[:160]}", loc(b))
     # PartialEq<Effects> for Style: *self == Style::from(*other) ; From<Effects>: Style::new().effects(e)
     b = body(f"<{STY} as core::cmp::PartialEq<{EFFT}>>::eq")
-    fr = [n for n in hir.walk(b["hir"]) if hir.is_call(n, f"<{STY} as core::convert::From<{EFFT}>>::from")]
-    cmp_ = [n for n in hir.walk(b["hir"]) if n.get("k") == "bin" and n["op"] == "Eq"]
-    ok = len(fr) == 1 and hir.is_local(fr[0]["args"][0], "other") and len(cmp_) == 1 and \
-        (cmp_[0].get("resolved") or cmp_[0].get("callee", "")).endswith("PartialEq>::eq")
-    if ok:
-        sides = [hir.local_name(cmp_[0]["l"]), hir.local_name(cmp_[0]["r"])]
-        ok = "self" in sides
-    rep.check(ok, "operators", b["path"], "compares-with-from(effects)", "style == effects iff style == Style::from(effects)", loc(b))
+    # style == effects exactly when the style has no colours and its effects are those effects: 16 cases by abstract evaluation
+    bad = []
+    n_cases = 0
+    for fgv in (("none",), ("some", ("sym", "c1"))):
+        for bgv in (("none",), ("some", ("sym", "c2"))):
+            for ulv in (("none",), ("some", ("sym", "c3"))):
+                def run(choices, fgv=fgv, bgv=bgv, ulv=ulv):
+                    ev = abseval.Evaluator(facts, "anstyle", {})
+                    ev.choices = choices
+                    env = abseval.Env()
+                    env[b["params"][0]["name"]] = ("rec", {"fg": fgv, "bg": bgv, "underline": ulv, "effects": ("sym", "E")})
+                    env[b["params"][1]["name"]] = ("sym", "other")
+                    try:
+                        return ev.ev(b["hir"], env)
+                    except abseval.Return as rt:
+                        return rt.v
+                for choices, res in abseval.explore(run):
+                    n_cases += 1
+                    same = choices.get(("E", ("sym", "other")), choices.get(("other", ("sym", "E"))))
+                    plain = fgv == ("none",) and bgv == ("none",) and ulv == ("none",)
+                    want = plain and bool(same)
+                    if plain and same is None:
+                        bad.append("the effects are never compared for a colourless style")
+                    elif res != ("bool", want):
+                        bad.append(f"fg={fgv[0]} bg={bgv[0]} underline={ulv[0]} effects {'equal' if same else 'differ'}: {res}, expected {want}")
+    rep.check(not bad and n_cases >= 9, "operators", b["path"], "compares-with-from(effects)",
+              f"style == effects iff style == Style::from(effects) (no colours, the same effects): {bad[:2]}", loc(b))
     b = body(f"<{STY} as core::convert::From<{EFFT}>>::from")
     e = ac.single_expr(b["hir"])
     ok = hir.is_call(e, S + "effects") and hir.is_call(hir.simp(e["args"][0]), S + "new") and hir.is_local(e["args"][1], b["params"][0]["name"])
